@@ -30,7 +30,7 @@ ASSUMPTIONS = [
     "ACL patterns never split the rows of one rulebook (rule,key): they are the rulebook's patterns, widened (*, truncation + ~) or narrowed to one key",
     "rulebook logics emit only the row or its negation (default, undo_redo, ordered)",
 ]
-FLOORS = {"quick": {"patches_checked": 2000, "commands_checked": 3000, "uncovered_rows_checked": 3000, "cant_delete_rows_checked": 150, "composition_checked": 2000, "front_runs_with_acl": 300, "front_runs_empty_acl": 10, "front_runs_acl_safe": 150, "flat_vendor_cases": 400, "flat_cases_with_negated_rows_in_new": 80, "cases_with_literal_acl_rules_holding_a_slash_or_a_hash": 400, "second_devices_with_shared_acl": 800, "shared_subrule_acl_cases": 300, "front_runs_filter_acl": 150, "deploy_front_runs": 500, "cases_with_negated_rows_in_new": 400, "front_runs_with_generator_selection": 150, "cases_with_tab_indented_rule_texts": 150, "front_runs_on_a_second_device_of_the_model": 100},
+FLOORS = {"quick": {"patches_checked": 2000, "commands_checked": 3000, "uncovered_rows_checked": 3000, "cant_delete_rows_checked": 150, "composition_checked": 2000, "front_runs_with_acl": 300, "front_runs_empty_acl": 10, "front_runs_acl_safe": 150, "flat_vendor_cases": 400, "flat_cases_with_negated_rows_in_new": 80, "cases_with_literal_acl_rules_holding_a_slash_or_a_hash": 400, "second_devices_with_shared_acl": 800, "shared_subrule_acl_cases": 300, "front_runs_filter_acl": 150, "deploy_front_runs": 500, "cases_with_negated_rows_in_new": 400, "front_runs_with_generator_selection": 150, "cases_with_tab_indented_rule_texts": 150, "front_runs_on_a_second_device_of_the_model": 100, "acl_rules_with_parameters_on_a_continuation_line": 300},
           "thorough": {"patches_checked": 60000, "commands_checked": 90000, "uncovered_rows_checked": 90000, "cant_delete_rows_checked": 4000, "composition_checked": 60000}}
 VENDORS = c01.BLOCK_VENDORS
 
@@ -226,6 +226,18 @@ def check_case(seed, acc, flat=False, shared=False, negnew=False, literal=False,
     if not atext.strip():
         return None
     if tabs:
+        # the parameters of most rules on a line of their own below the rule, indented deeper (`aaa` / `    %cant_delete=1`)
+        crng = random.Random(seed ^ 0xC047)
+        out_ = []
+        for ln_ in atext.split("\n"):
+            i_ = ln_.find(" %")
+            if i_ > 0 and ln_[:i_].strip() and crng.random() < 0.6:
+                ind_ = " " * (len(ln_) - len(ln_.lstrip(" ")))
+                out_ += [ln_[:i_].rstrip(), ind_ + "    " + ln_[i_:].strip()]
+                acc.count("acl_rules_with_parameters_on_a_continuation_line")
+            else:
+                out_.append(ln_)
+        atext = "\n".join(out_)
         # the same texts indented with tab characters, one per level (the rule language takes blanks and tabs alike)
         atext = re.sub(r"(?m)^(?:    )+", lambda m: "\t" * (len(m.group(0)) // 4), atext)
         if seed % 2:
